@@ -57,13 +57,15 @@ let () =
     let secs = split_sections line in
     let d = parse_dump line in
     let g = grammar_of d in
-    let a = of_dump (dump_of d) in
+    let dd = dump_of d in
+    let a = of_dump dd in
     let pn = ref 3 in
     List.iter (function "KN" :: n :: _ -> pn := int_of_string n | _ -> ()) secs;
     let pN = nat_of_int !pn in
     let nprods = List.length g.prods in
     let b = Buffer.create 256 in
-    Buffer.add_string b (Printf.sprintf "V wf=%s S=%s single=%s" (b2s (wf_grammar g)) (b2s (validS g a)) (b2s (single_candidate g a)));
+    Buffer.add_string b (Printf.sprintf "V wf=%s S=%s single=%s nse=%s" (b2s (wf_grammar g)) (b2s (validS g a)) (b2s (single_candidate g a))
+      (b2s (dump_no_shift_eof g.eof dd)));
     List.iter (fun (c : icase) ->
       let input = List.map n_of_int c.toks in
       let len = List.length c.toks in
@@ -84,11 +86,16 @@ let () =
       let mvs = match mval with Some t -> "acc " ^ str_of (pp_vtree g) t | None -> "none" in
       let vcmp = if mstat <> "done" then "na" else if mvs = c.value then "same" else "diff" in
       (* every reported sequence of every error the two sides agree on *)
-      let bad = ref [] and nseq = ref 0 in
+      let bad = ref [] and nseq = ref 0 and nskip = ref 0 in
+      let cap = 1500 in
       let rec walk i (ies : ierr list) (mes : err list) =
         match ies, mes with
         | ie :: ies', me :: mes' when ie.ipos = int_of_nat me.e_pos && ie.ist = int_of_n me.e_state ->
+            let total = List.length ie.seqs in
+            let stride = if total <= cap then 1 else (total + cap - 1) / cap in
             List.iteri (fun j seq ->
+              (* model cap: of more than [cap] sequences of one error a strided sample (the first included) *)
+              if j mod stride <> 0 then incr nskip else begin
               incr nseq;
               (* lexemes named by Delete/Shift are the ones at the running position *)
               let cur = ref ie.ipos and lexbad = ref (-1) in
@@ -110,7 +117,7 @@ let () =
                   | Panic -> "panic"
                   | OutOfFuel -> "fuel" in
                 bad := Printf.sprintf "%d.%d.%s" i j why :: !bad
-              end) ie.seqs;
+              end end) ie.seqs;
             walk (i + 1) ies' mes'
         | _ -> () in
       walk 0 c.errs mes;
@@ -123,7 +130,7 @@ let () =
         | Some t, Some v -> if str_of shape_t t = str_of shape_v v then "same" else "diff"
         | Some _, None -> "noval"
         | None, _ -> "na" in
-      Buffer.add_string b (Printf.sprintf " # J plain=%s mirror=%s merrs=%s vcmp=%s nseq=%d bad=%s rep=%s rshape=%s replen=%d"
-        pl mstat merrs vcmp !nseq (String.concat "," (List.rev !bad)) rp rshape (List.length rep_input));
+      Buffer.add_string b (Printf.sprintf " # J plain=%s mirror=%s merrs=%s vcmp=%s nseq=%d nskip=%d bad=%s rep=%s rshape=%s replen=%d"
+        pl mstat merrs vcmp !nseq !nskip (String.concat "," (List.rev !bad)) rp rshape (List.length rep_input));
       if vcmp = "diff" then Buffer.add_string b (" # MV " ^ mvs)) (parse_inputs secs);
     Buffer.contents b)
